@@ -585,13 +585,13 @@ pub fn convmain() {
         match op {
             "consts" => {
                 // accessors that bound nothing (clamp and is_within_bounds do not use them) but are documented values
-                rec.ev(json!({"ev": "acc", "t": TNAME, "vals": {
+                if c.get("acc").is_some() { rec.ev(json!({"ev": "acc", "t": TNAME, "vals": {
                     "lch_max_extended_chroma": Lch::<D65, T>::max_extended_chroma().ex(),
                     "cam16ucsjab_min_srgb_a": palette::cam16::Cam16UcsJab::<T>::min_srgb_a().ex(),
                     "cam16ucsjab_max_srgb_a": palette::cam16::Cam16UcsJab::<T>::max_srgb_a().ex(),
                     "cam16ucsjab_min_srgb_b": palette::cam16::Cam16UcsJab::<T>::min_srgb_b().ex(),
                     "cam16ucsjab_max_srgb_b": palette::cam16::Cam16UcsJab::<T>::max_srgb_b().ex(),
-                }}));
+                }})); }
                 for (i, n) in nodes.iter().enumerate() {
                     let b: Vec<Value> = (n.bounds)().iter().map(|(lo, hi)| json!([lo.map(|x| x.ex()), hi.map(|x| x.ex())])).collect();
                     let lo: Vec<Value> = (n.bounds)().iter().map(|(lo, _)| match lo { Some(x) => x.ex(), None => json!([]) }).collect();
